@@ -28,6 +28,10 @@ def run_real(case):
     from src.correlation.peaks_selector import PeaksSelector
     from src.correlation.peak import Peak
     kind, v = case["kind"], case["vin"]
+    den = case.get("den", 1)
+    if den != 1:       # one-decimal coordinates (what the CMAP reader delivers): the case is stored in deci-bp for TLC, the
+        # real functions get pos/den (floats), res/den, start/den, end/den (whole numbers); the bit vector is the same
+        v = dict(v, pos=[x / den for x in v["pos"]], res=v["res"] // den, start=v["start"] // den, end=v["end"] // den)
     if kind == "vec":
         end = v["end"] if v["end"] != 0 else None
         return [int(x) for x in vectorisePositions(list(v["pos"]), v["res"], v["start"], end)]
@@ -40,7 +44,7 @@ def run_real(case):
         # identity says nothing about its content (a generator must not remember label lists by identity)
         _CASE[0] += 1
         _BUF[:] = v["pos"]
-        om = OpticalMap(10 + _CASE[0], max(v["pos"]) + 1, _BUF)
+        om = OpticalMap(10 + _CASE[0], int(max(v["pos"])) + 1, _BUF)
         sg = _GENERATORS.setdefault((v["res"], v["r"]), SequenceGenerator(v["res"], v["r"]))
         return [int(x) for x in om.getSequence(sg, v["rev"], v["start"], end)]
     if kind == "blur":
@@ -89,10 +93,16 @@ def random_case(rng: random.Random):
         end = rng.choice([0, 0, pos[-1], pos[-1] - 1, pos[len(pos) // 2], start + 4 * res, pos[-1] + 3 * res])
         if end != 0 and end < start:
             end = 0
+        extra = {}
+        if rng.random() < 0.3:
+            # coordinates with one decimal: everything times 10, labels moved off the whole base pairs
+            pos = sorted(10 * x + rng.choice([0, 1, 4, 5, 9]) for x in pos)
+            res, start, end = 10 * res, 10 * start, 10 * end
+            extra = {"den": 10}
         if rng.random() < 0.5:
-            return {"kind": "seq", "vin": {"pos": pos, "res": res, "start": start, "end": end,
-                                           "r": rng.choice([0, 0, 1, 2, 3]), "rev": rng.random() < 0.4}}
-        return {"kind": "vec", "vin": {"pos": pos, "res": res, "start": start, "end": end}}
+            return dict({"kind": "seq", "vin": {"pos": pos, "res": res, "start": start, "end": end,
+                                                "r": rng.choice([0, 0, 1, 2, 3]), "rev": rng.random() < 0.4}}, **extra)
+        return dict({"kind": "vec", "vin": {"pos": pos, "res": res, "start": start, "end": end}}, **extra)
     if u < 0.65:
         n = rng.randint(0, 40)
         return {"kind": "blur", "vin": {"v": [1 if rng.random() < 0.2 else 0 for _ in range(n)], "r": rng.randint(0, 6)}}
@@ -109,10 +119,10 @@ def random_case(rng: random.Random):
 
 
 def _rerun(case):
-    return {"kind": case["kind"], "vin": case["vin"], "obs": run_real(case)}
+    return dict(case, obs=run_real(case))
 
 
-REPLAY = ("Trace_Vectorise", "Trace_Vectorise.cfg", _rerun, ())
+REPLAY = ("Trace_Vectorise", "Trace_Vectorise.cfg", _rerun, ("den",))
 
 def run(ctx: Ctx):
     quick = ctx.tier == "quick"
@@ -124,7 +134,7 @@ def run(ctx: Ctx):
                 "functions, every window also through the composed OpticalMap.getSequence / SequenceGenerator entry "
                 "(kind seq: blur and strand included); judged by TLC (Trace_Vectorise). non-trivial = distinct case whose result has both a 0 and "
                 "a 1 bit / a tie among scores / a label not at the bin start")
-    ctx.assumptions = ["integer coordinates; labels ascending (the reader sorts them); end=0 means 'not given' exactly "
+    ctx.assumptions = ["integer or one-decimal coordinates (the latter judged in deci-bp); labels ascending (the reader sorts them); end=0 means 'not given' exactly "
                        "as `end or positions[-1]` treats it"]
     mc_res = {}
 
@@ -151,7 +161,7 @@ def run(ctx: Ctx):
             obs = run_real(c)
         except Exception as e:
             obs = [-1] if c["kind"] != "bin" else -10 ** 9
-        records.append({"kind": c["kind"], "vin": c["vin"], "obs": obs})
+        records.append(dict({"kind": c["kind"], "vin": c["vin"], "obs": obs}, **({"den": c["den"]} if "den" in c else {})))
         v = c["vin"]
         if (c["kind"] in ("vec", "seq") and isinstance(obs, list) and 0 in obs and 1 in obs) or \
            (c["kind"] == "blur" and 1 in v["v"] and 0 in v["v"] and v["r"] > 0) or \
@@ -159,7 +169,8 @@ def run(ctx: Ctx):
            (c["kind"] == "cpk" and v["count"] < len(v["scores"])) or \
            (c["kind"] == "sel" and len(set(v["scores"])) < len(v["scores"]) and 0 < v["count"] < len(v["scores"])):
             ctx.nontrivial(repr(c))
-    verdicts, r = batch.validate("Trace_Vectorise", "Trace_Vectorise.cfg", ctx.workdir, records)
+    verdicts, r = batch.validate("Trace_Vectorise", "Trace_Vectorise.cfg", ctx.workdir,
+                                 [{k: v for k, v in x.items() if k != "den"} for x in records])
     ctx.add_traces(len(records))
     ctx.notes["trace_validation"] = {"states": r.distinct, "wall_s": round(r.wall_s, 1),
                                      "from_tlc_exported_space": len(space)}
